@@ -716,12 +716,20 @@ impl<'a> Runner<'a> {
         let res = |r: IdRef, slot: usize| -> Uuid {
             if let Some(s) = &self.solo {
                 if !own(r) {
-                    return match &s.full_reqs[i][slot] {
+                    let id = match &s.full_reqs[i][slot] {
                         Req::AddVersion { parent, .. } => *parent,
                         Req::GetChild { parent } => *parent,
                         Req::AddSnapshot { vid, .. } => *vid,
                         Req::GetSnapshot => Uuid::nil(),
                     };
+                    // a reference through another client may still land on one of this client's
+                    // own versions (e.g. the other chain starts from this one): name it by position
+                    if let Some(p) = s.full_clients[s.client].pos_of(id) {
+                        if let Some(a) = self.clients[s.client].chain.get(p) {
+                            return a.vid;
+                        }
+                    }
+                    return id;
                 }
             }
             self.resolve(r)
